@@ -16,3 +16,11 @@ Section L.
   Lemma skipn_app_exact (l r : list A) : skipn (length l) (l ++ r) = r.
   Proof. induction l; cbn; congruence. Qed.
 End L.
+
+Section L2.
+  Context {A : Type}.
+  Lemma In_firstn (l : list A) n x : In x (firstn n l) -> In x l.
+  Proof. revert l; induction n; intros l H; [destruct H|]. destruct l; [destruct H|]. destruct H; [now left|right; auto]. Qed.
+  Lemma In_skipn (l : list A) n x : In x (skipn n l) -> In x l.
+  Proof. revert l; induction n; intros l H; [exact H|]. destruct l; [destruct H|]. right; auto. Qed.
+End L2.
